@@ -347,13 +347,26 @@ impl World {
         parent_local_name: &str,
         resources: ResourceSet,
     ) -> KResult<()> {
+        self.add_child_link_named(parent, child, child, parent_local_name, resources)
+    }
+
+    /// Same, and the parent registers the child under `child_name_at_parent`
+    /// (which need not be the child CA's own handle).
+    pub fn add_child_link_named(
+        &self,
+        parent: &str,
+        child: &str,
+        child_name_at_parent: &str,
+        parent_local_name: &str,
+        resources: ResourceSet,
+    ) -> KResult<()> {
         let child_ca = ca(child);
         let id_cert = {
             let c = self.krill.ca_manager().get_ca(&child_ca)?;
             c.child_request().validate().map_err(KrillError::rfc8183)?
         };
         let req = AddChildRequest {
-            handle: child_ca.convert(),
+            handle: ca(child_name_at_parent).convert(),
             resources,
             id_cert,
         };
